@@ -474,6 +474,52 @@ def case_project(case):
     return out
 
 
+def sim_popins(zc, ac, n):
+    """Rows (coordinate, position) of populate_read_0 / populate_write_0 for z << a into a compressed destination with
+    authoritative shape n, both traces registered, every offered element updated to a non-default value; z stores no
+    explicit defaults.  Positions: an existing element is read at its index in z; an element inserted below z's
+    last coordinate is staged at n + (number staged before it); after the loop everything from the first
+    insertion point on is moved to its final index (read from the old index or the staging slot, written to the
+    final one), last element first."""
+    Z = stored(zc)
+    A = present(ac)
+    coords = list(Z)
+    inserting = bool(Z) and bool(A) and A[0] < max(Z)
+    reads, writes = [], []
+    a_pos, old_end, to_insert, start = 0, 0, [], None
+    for b in A:
+        if inserting and a_pos < len(coords):
+            for i in range(a_pos, len(coords)):
+                if old_end <= coords[i] < b:
+                    reads.append((coords[i], i - len(to_insert)))
+        a_pos += len([c for c in coords[a_pos:] if c < b])
+        if a_pos < len(coords) and coords[a_pos] == b:
+            reads.append((b, a_pos - len(to_insert)))
+            writes.append((b, a_pos - len(to_insert)))
+        else:
+            coords.insert(a_pos, b)
+            if inserting:
+                old_end = b + 1
+                writes.append((b, n + len(to_insert)))
+                to_insert.append(b)
+                if start is None:
+                    start = a_pos
+            else:
+                writes.append((b, a_pos - len(to_insert)))
+        a_pos += 1
+    if inserting and to_insert:
+        for i, c in enumerate(reversed(coords[start:])):
+            wp = len(coords) - i - 1
+            if c == to_insert[-1]:
+                rp = n + len(to_insert) - 1
+                to_insert.pop()
+            else:
+                rp = wp - len(to_insert)
+            reads.append((c, rp))
+            writes.append((c, wp))
+    return reads, writes
+
+
 def case_popins(case):
     """Populate into a non-empty destination (inserting / appending / overwriting):
     z_k << a_k with the body accumulating.  Destination-side traces: header, stamp
@@ -501,8 +547,13 @@ def case_popins(case):
     check_trace("popins", regs[0], base.get(regs[0], []), ["K"], [((k,), i) for i, k in enumerate(A)], f, out, True)
     check_trace("popins", regs[1], base.get(regs[1], []), ["K"], [((k,), rawpos(ac, k)) for k in A], f, out, False,
                 list(range(len(A))))
-    check_trace("popins", regs[2], base.get(regs[2], []), ["K"], None, f, out, False)
-    check_trace("popins", regs[3], base.get(regs[3], []), ["K"], None, f, out, False)
+    if '0' not in zc:
+        er, ew = sim_popins(zc, ac, n)
+        check_trace("popins", regs[2], base.get(regs[2], []), ["K"], [((c,), p_) for c, p_ in er], f, out, False)
+        check_trace("popins", regs[3], base.get(regs[3], []), ["K"], [((c,), p_) for c, p_ in ew], f, out, False)
+    else:
+        check_trace("popins", regs[2], base.get(regs[2], []), ["K"], None, f, out, False)
+        check_trace("popins", regs[3], base.get(regs[3], []), ["K"], None, f, out, False)
     return out
 
 
@@ -685,7 +736,41 @@ def shard_project(acc, shard, nshards, params):
     core.drive(acc, "project", case_project, gen(), shard, nshards, family="project[N=%d]" % params)
 
 
-CASES = {"iter1": case_iter1, "and1": case_and1, "nest2": case_nest2, "matvec": case_matvec,
+def case_lf1(case):
+    """Leader-follower intersection: the leader's presented elements are traced as intersect_0, every look-up in the
+    follower (one per leader element, whether it finds the coordinate or not, also beyond the follower's last
+    coordinate) as intersect_1 with the position the search ends at."""
+    ac, bc = case
+    out = []
+    a, b = mkrow(ac, 1), mkrow(bc, 2)
+    a.getRankAttrs().setId("K")
+    b.getRankAttrs().setId("K")
+    regs = [("K", "intersect_0"), ("K", "intersect_1")]
+
+    def nest():
+        for k, (x, y) in Fiber.intersection(a, b, style="leader-follower"):
+            pass
+    f = feats_cells(ac, bc) | {"style:leader-follower"}
+    bstored = [i for i, x in enumerate(bc) if x != '-']
+    if present(ac) and (not bstored or max(present(ac)) > max(bstored)):
+        f.add("leader_reaches_beyond_follower")
+    base = run_all("lf1", nest, regs, f, out)
+    if base is None:
+        return out
+    A = present(ac)
+    e0 = [((k,), rawpos(ac, k)) for k in A]
+    e1 = [((k,), len([c for c in bstored if c < k])) for k in A]
+    check_trace("lf1", regs[0], base.get(regs[0], []), ["K"], e0, f, out, False, [A.index(k) for k in A])
+    check_trace("lf1", regs[1], base.get(regs[1], []), ["K"], e1, f, out, False)
+    return out
+
+
+def shard_lf1(acc, shard, nshards, params):
+    u = f1(params)
+    core.drive(acc, "lf1", case_lf1, ((a, b) for a in u for b in u), shard, nshards, family="lf1[N=%d]" % params)
+
+
+CASES = {"lf1": case_lf1, "iter1": case_iter1, "and1": case_and1, "nest2": case_nest2, "matvec": case_matvec,
          "matmul3": case_matmul3, "project": case_project, "popins": case_popins, "flat2": case_flat2,
          "popU": case_popU, "projpop2": case_projpop2}
 
@@ -694,6 +779,7 @@ def run(ctx):
     q = ctx.quick
     ctx.bounds = {
         "iter1": "F1(%d)" % (4 if q else 6), "and1": "pairs of F1(%d)" % (3 if q else 4),
+        "lf1": "leader-follower intersection of pairs of F1(%d): leader elements (intersect_0) and follower look-ups (intersect_1)" % (3 if q else 4),
         "nest2": "two rows in F1(3)%s x b in F1(3)" % ("" if q else " or absent"),
         "matvec": "A in T2(2,2) x B in F1(2)", "matmul3": "A, B in T2(2,2) with <=%d stored leaves" % (2 if q else 3),
         "project": "F1(%d) x shift {0,3} x every start_pos" % (3 if q else 4),
@@ -704,6 +790,8 @@ def run(ctx):
         ctx.shards(shard_iter1, 4 if q else 6)
     if sel("and1"):
         ctx.shards(shard_and1, 3 if q else 4)
+    if sel("lf1"):
+        ctx.shards(shard_lf1, 3 if q else 4)
     if sel("nest2"):
         ctx.shards(shard_nest2, not q)
     if sel("matvec"):
